@@ -139,7 +139,12 @@ Ready(c, bound, V, ctx) ==
                            /\ \A i \in 1..Len(c.args) :
                              (BareUnbound(c.args[i].e, bound) /\ c.args[i].f \notin inputs)
                              \/ (~BareUnbound(c.args[i].e, bound)
-                                 /\ Ground(c.args[i].e, bound \cup own, V))
+                                 \* a parameter of an injectible predicate is needed
+                                 \* before the call, other arguments may use variables
+                                 \* bound by this very atom
+                                 /\ Ground(c.args[i].e,
+                                           IF c.args[i].f \in inputs THEN bound
+                                           ELSE bound \cup own, V))
     [] c.k = "cmp"   -> Ground(c.e, bound, V)
     [] c.k = "unify" -> \/ Ground(c.l, bound, V) /\ Ground(c.r, bound, V)
                         \/ BareUnbound(c.l, bound) /\ Ground(c.r, bound, V)
